@@ -1,1 +1,203 @@
-/- C10 property theorems (stub: not built yet) -/
+import ThriftVerif.Gen.Fast
+import ThriftVerif.Gen.FastLemmas
+import ThriftVerif.Gen.FastSkipLemmas
+import ThriftVerif.Gen.FastReadLemmas
+import ThriftVerif.Gen.FastWriteLemmas
+import ThriftVerif.Gen.SchemaCheck
+import ThriftVerif.Generated.C10
+/-
+  C10 — the fastgo codec agrees with the standard codec and BLength is exact.
+  Property theorems over `Gen.Fast` (the model of the three code writers of generator/fastgo and of the
+  gopkg v0.2.0 primitives the generated code calls), related to `Gen.Std` (the model of the standard
+  templates, C02) and `Core.Wire`.
+  `WT` = the Go object is one a Go program can hold for that IDL type; `SchemaOK` = what the semantic checker
+  guarantees; `IdsInt16` = field ids fit the wire's int16; `B256` = the input is a byte string.
+-/
+namespace Props.C10
+open Wire Gen Gen.Std Gen.Fast
+
+/-- field ids fit the int16 of the wire (thriftgo's parser accepts larger numbers; the templates would not compile) -/
+def IdsInt16 (P : Prog) : Prop :=
+  ∀ (i : Nat) (sd : StructDef), P.structs[i]? = some sd → ∀ f ∈ sd.fields, -32768 ≤ f.id ∧ f.id < 32768
+
+theorem progOK_of (P : Prog) (hP : SchemaOK P) (hI : IdsInt16 P) : ProgOK P :=
+  fun i sd hsd => ⟨(hP i sd hsd).1, hI i sd hsd⟩
+
+/-- **the regenerated tables of consts.go are sound**: for every resolved type (every parser.Category, with
+struct/union/exception told apart by the schema) (1) the wire type fastgo writes in field headers and switches on
+in FastRead, and (2) the gopkg constant it writes in container headers, both equal the standard type id
+(`Gen.Ty.ttype`, tied to the templates by C02's `typeid_table_sound`); (3) `category2WireSize` is the fixed size
+of the type, (4) a positive size is the exact length of the encoding of every value of that type, and (5) the size
+is 0 exactly for the variable-length types; (6) `isContainerType` (the `!= nil` skip rule) holds exactly for
+map, list, set and binary. All by evaluation of the tables extracted from /repo on every run. -/
+theorem wire_tables_sound (P : Prog) (ty : Ty) :
+    wireTypeOf P ty = ty.ttype.code ∧ gopkgTypeOf P ty = ty.ttype.code ∧ wireSizeOf P ty = fixedSize ty ∧
+    (∀ (v : GoVal) (w : WVal), 0 < wireSizeOf P ty → scalarW ty v = some w → (encW w).length = wireSizeOf P ty) ∧
+    (wireSizeOf P ty = 0 ↔ (ty = .str ∨ ty = .bin ∨ ty.isBase = false)) ∧
+    (isContainerType P ty = true ↔ (ty = .bin ∨ (ty.isBase = false ∧ ty.isStruct = false))) := by
+  refine ⟨wireTypeOf_eq P ty, gopkgTypeOf_eq P ty, wireSizeOf_eq P ty, ?_, ?_, ?_⟩
+  · intro v w hz hs
+    rw [wireSizeOf_eq] at hz ⊢
+    cases ty <;> simp [fixedSize] at hz <;> cases v <;> simp [scalarW] at hs <;> subst hs <;> simp [encW, be_length, fixedSize]
+  · rw [wireSizeOf_eq]
+    cases ty <;> simp [fixedSize, Ty.isBase]
+  · rw [isContainerType_eq]
+    cases ty <;> simp [Ty.isBase, Ty.isStruct]
+
+/-- **BLength is exact**: whenever FastAppend writes an object (any schema, any object, any nesting), BLength
+answers exactly the number of bytes written — including the fixed-size fast paths `len * size`,
+`len * (ksz + vsz)`, `len * ksz + Σ values`, and the optional-skip rules, which are the same function
+(`written`) in both code writers. -/
+theorem blength_exact (P : Prog) (fuel sidx : Nat) (obj : GoVal) (bs : Bytes)
+    (h : fastWrite P fuel sidx obj = .ok bs) : blength P fuel sidx obj = .ok bs.length :=
+  blengthAny_exact P fuel (.struct sidx) obj bs h
+
+/-- hence `FastWrite(buf)` into a buffer of `BLength()` bytes never overflows and writes the same bytes -/
+theorem fast_write_into_blength (P : Prog) (fuel sidx : Nat) (obj : GoVal) (bs : Bytes)
+    (h : fastWrite P fuel sidx obj = .ok bs) : fastWriteInto P fuel sidx obj = .ok bs := by
+  simp [fastWriteInto, blength_exact P fuel sidx obj bs h, h, bind]
+
+/-- **FastAppend emits the standard wire value up to field order**: for every schema without an optional
+binary field that has a default, every well-typed object that the standard `Write` accepts (`toW … = ok w`:
+unions with exactly one member set, sets without duplicates under validate_set), FastAppend writes exactly
+`encW (normW w)`: the encoding of the same wire value with the fields of every struct, at every depth, sorted by
+field id. FULL STATEMENT (false, see `fast_write_optional_binary_default_differs`): the same without `NoOptBin`. -/
+theorem fast_write_is_std (P : Prog) (hN : NoOptBin P) (sidx : Nat) (obj : GoVal) (w : WVal) (fuel : Nat)
+    (hwt : WT P.structs (.struct sidx) obj) (h : toW P (.struct sidx) obj = .ok w) (hd : w.depth ≤ fuel) :
+    fastWrite P fuel sidx obj = .ok (encW (normW w)) :=
+  fastAny_is_std P hN obj (.struct sidx) w fuel hwt h hd
+
+/-- **and that encoding decodes under `Core.Wire`** to the well-formed struct value `normW w` (same fields, same
+values, sorted by id), with nothing left over. -/
+theorem fast_write_decodes (P : Prog) (hN : NoOptBin P) (sidx : Nat) (obj : GoVal) (w : WVal) (fuel : Nat)
+    (hwt : WT P.structs (.struct sidx) obj) (h : toW P (.struct sidx) obj = .ok w) (hd : w.depth ≤ fuel) :
+    ∃ bs, fastWrite P fuel sidx obj = .ok bs ∧ WF (normW w) ∧ decW w.depth .struct bs = some (normW w, []) := by
+  refine ⟨_, fast_write_is_std P hN sidx obj w fuel hwt h hd, ?_⟩
+  obtain ⟨hwf, htt⟩ := toW_WF P obj (.struct sidx) w hwt h
+  obtain ⟨hn, hdn⟩ := normW_WF w hwf
+  refine ⟨hn, ?_⟩
+  have := decW_encW (normW w) w.depth [] hn (by omega)
+  rw [normW_ttype, htt] at this
+  simpa [Ty.ttype] using this
+
+/-- **FastRead refines the standard Read** on EVERY byte string: whenever the generated `Read` (Gen.Std) accepts an
+input, the generated `FastRead` linked with gopkg accepts it too, builds the same object (same required-field
+bookkeeping, same skipping of unknown ids and of known ids with another wire type — the `fid<<8|ftyp` switch vs
+`switch id` + type test) and consumes the same bytes.
+PARTIAL: the converse ("Read fails ⇒ FastRead fails") does not hold for the two models: gopkg's Skip counts the
+nesting limit of 64 differently and does not validate the element types of empty containers; see docs/C10.md. -/
+theorem fast_read_refines_std (P : Prog) (hP : SchemaOK P) (hI : IdsInt16 P) (sidx : Nat) (bs : Bytes) (obj : GoVal)
+    (hB : B256 bs) (h : Std.read P sidx bs = some obj) : ∃ n, fastRead P sidx bs = .ok (obj, n) ∧ n ≤ bs.length := by
+  unfold Std.read at h
+  obtain ⟨q, hq, hv⟩ := map_some_inv _ _ _ h
+  obtain ⟨v, r⟩ := q
+  simp only [] at hv
+  subst hv
+  obtain ⟨e, _⟩ := fastReadTy_refines P (progOK_of P hP hI) _ _ bs v r hB hq
+  refine ⟨bs.length - r.length, ?_, by omega⟩
+  simp [fastRead, fastReadWith, e, bind]
+
+/-- **on every encoding the standard Write produces, FastRead yields the object the standard Read yields** and
+consumes exactly the encoding. -/
+theorem fast_read_eq_std_on_written (P : Prog) (hP : SchemaOK P) (hI : IdsInt16 P) (sidx : Nat) (obj : GoVal) (bs : Bytes)
+    (hwt : WT P.structs (.struct sidx) obj) (h : write P sidx obj = .ok bs) (hB : B256 bs) :
+    ∃ obj', Std.read P sidx bs = some obj' ∧ fastRead P sidx bs = .ok (obj', bs.length) ∧
+      write (noVal P) sidx obj' = .ok bs := by
+  simp only [write, Res.bind_eq_ok] at h
+  obtain ⟨w, hw, hb⟩ := h
+  cases hb
+  have hw0 := toW_noVal P obj (.struct sidx) w hw
+  have hd : w.depth ≤ (encW w).length + 1 := by have := depth_le_len w; omega
+  obtain ⟨v', hr, ht, _, _⟩ := rt (noVal P) hP rfl obj (.struct sidx) w ((encW w).length + 1) [] hwt hw0 hd
+  simp only [List.append_nil] at hr
+  have hs : (noVal P).structs = P.structs := rfl
+  rw [hs] at hr
+  obtain ⟨e, _⟩ := fastReadTy_refines P (progOK_of P hP hI) _ _ (encW w) v' [] hB hr
+  refine ⟨v', ?_, ?_, ?_⟩
+  · simp [Std.read, hr]
+  · simp [fastRead, fastReadWith, e, bind]
+  · simp [write, ht, bind]
+
+/-- **unknown fields anywhere do not disturb FastRead either**: for the written fields `ws` of a well-typed
+object there is ONE object that both readers produce from `ws` interleaved with any number of unknown-id fields
+(well-formed, nesting ≤ 64) at any positions. -/
+theorem fast_read_tolerates_unknown (P : Prog) (hP : SchemaOK P) (hI : IdsInt16 P) (hv : P.validateSet = false) (i : Nat)
+    (sd : StructDef) (fs : List GoVal) (ws : List (Nat × WVal)) (f : Nat) (hsd : P.structs[i]? = some sd)
+    (hwt : WTFields P.structs sd.fields fs) (hw : toWFields P sd.fields fs = .ok ws) (hd : depthFields ws ≤ f) :
+    ∃ fs', toWFields P sd.fields fs' = .ok ws ∧
+      ∀ (ms : List (Nat × WVal)) (r : Bytes), Mixed sd.fields ws ms → B256 (encFields ms ++ 0 :: r) →
+        readTy P.structs (f + 1) (.struct i) (encFields ms ++ 0 :: r) = some (.strct fs', r) ∧
+        fastReadTyWith Gopkg.skip P (f + 1) (.struct i) (encFields ms ++ 0 :: r) = .ok (.strct fs', r) := by
+  obtain ⟨fs', h1, h2⟩ := struct_read_mixed P hP hv i sd fs ws f hsd hwt hw hd
+  refine ⟨fs', h1, fun ms r hm hB => ⟨h2 ms r hm, ?_⟩⟩
+  exact (fastReadTy_refines P (progOK_of P hP hI) _ _ _ _ r hB (h2 ms r hm)).1
+
+/-- **FastRead never panics — given a bounds-respecting Skip**: for EVERY schema and EVERY byte string (every
+truncation, every corruption), with any runtime `skip` that never panics and never answers a length beyond the
+buffer it was given, the outcome of the generated FastRead is `ok` or `err`: every slice expression `b[off:]`
+of the generated code stays in range (`advance`), because every other gopkg primitive it calls checks bounds.
+PARTIAL: gopkg v0.2.0's Skip does NOT satisfy the hypothesis — `gopkg_skip_not_bounded`,
+`fast_read_panics_on_truncation`, `fast_read_panics_on_type_byte` are the witnesses (replayed on the real code). -/
+theorem fast_read_no_panic (skip : Nat → Bytes → FRes Nat) (hs : SkipBounded skip) (P : Prog) (sidx : Nat) (bs : Bytes) :
+    NoPanic (fastReadWith skip P sidx bs) := by
+  unfold fastReadWith
+  apply NoPanic.bind _ _ (fastReadTy_np skip hs P _ _ _)
+  intro q _
+  trivial
+
+/-- witness 1: gopkg's Skip answers 14 for an 11-byte buffer (map<string,i32>, one entry, cut inside the value):
+the slow path of the MAP case adds a fixed value size without comparing it to the end of the buffer. And it
+panics (index out of range) on a type byte ≥ 0x80, `TType` being `int8`. -/
+theorem gopkg_skip_not_bounded :
+    Gopkg.skip 13 [11, 8, 0, 0, 0, 1, 0, 0, 0, 0, 0] = .ok 14 ∧ Gopkg.skip 128 [0] = .panic 1 ∧ ¬ SkipBounded Gopkg.skip := by
+  refine ⟨rfl, rfl, fun h => ?_⟩
+  have := h 128 [0]
+  exact this
+
+def exEmpty : Prog := { structs := [{ kind := 0, fields := [] }] }
+
+/-- witness 2: a truncation of a valid encoding (`struct Empty {}` with an unknown field 1: map<string,i32>{"":5})
+makes the generated FastRead panic with `slice bounds out of range` -/
+theorem fast_read_panics_on_truncation :
+    fastRead exEmpty 0 [13, 0, 1, 11, 8, 0, 0, 0, 1, 0, 0, 0, 0, 0, 0, 0, 5, 0] = .ok (.strct [], 18) ∧
+    fastRead exEmpty 0 [13, 0, 1, 11, 8, 0, 0, 0, 1, 0, 0, 0, 0, 0] = .panic 2 := ⟨rfl, rfl⟩
+
+/-- witness 3: one corrupted type byte (≥ 0x80) makes the generated FastRead panic with `index out of range` -/
+theorem fast_read_panics_on_type_byte : fastRead exEmpty 0 [128, 0, 1, 0] = .panic 1 := rfl
+
+def exOptBin : Prog := { structs := [{ kind := 0, fields := [{ id := 1, req := .optional, ty := .bin, dflt := some (.bytes [97, 98, 99]) }] }] }
+
+/-- witness 4 (why `fast_write_is_std` excludes them): `struct S {1: optional binary b = "abc"}`, object with
+`B == nil`: the standard Write emits the field with an empty value (`IsSetB` is `string(p.B) != string(DEFAULT)`),
+FastAppend omits it (`p.B != nil`); a reader then sees `""` in one case and `"abc"` in the other. -/
+theorem fast_write_optional_binary_default_differs :
+    write exOptBin 0 (.strct [.nil]) = .ok [11, 0, 1, 0, 0, 0, 0, 0] ∧ fastWrite exOptBin 5 0 (.strct [.nil]) = .ok [0] ∧
+    Std.read exOptBin 0 [11, 0, 1, 0, 0, 0, 0, 0] = some (.strct [.bytes []]) ∧
+    Std.read exOptBin 0 [0] = some (.strct [.bytes [97, 98, 99]]) := ⟨rfl, rfl, rfl, rfl⟩
+
+/-! ### non-vacuity of the hypotheses -/
+
+def exProg : Prog := { structs := [{ kind := 0, fields := [
+  { id := 3, req := .default, ty := .list .i64, dflt := none },
+  { id := 1, req := .required, ty := .i32, dflt := none },
+  { id := -2, req := .optional, ty := .str, dflt := some (.bytes [104, 105]) }] }] }
+
+example : SchemaOK exProg := schemaOkB_sound exProg (by decide)
+example : IdsInt16 exProg := by
+  intro i sd h f hf
+  match i, h with
+  | 0, h => cases h; simp at hf; rcases hf with rfl | rfl | rfl <;> decide
+example : NoOptBin exProg := by
+  intro i sd h f hf
+  match i, h with
+  | 0, h => cases h; simp at hf; rcases hf with rfl | rfl | rfl <;> simp [NoOptBinDflt]
+/-- fields are emitted sorted by id (-2, 1, 3), BLength agrees, the standard Write emits declaration order (3, 1, -2) -/
+example : fastWrite exProg 5 0 (.strct [.list [.int 7], .int 5, .bytes [97]]) =
+    .ok [11, 255, 254, 0, 0, 0, 1, 97, 8, 0, 1, 0, 0, 0, 5, 15, 0, 3, 10, 0, 0, 0, 1, 0, 0, 0, 0, 0, 0, 0, 7, 0] := by rfl
+example : blength exProg 5 0 (.strct [.list [.int 7], .int 5, .bytes [97]]) = .ok 32 := by rfl
+example : write exProg 0 (.strct [.list [.int 7], .int 5, .bytes [97]]) =
+    .ok [15, 0, 3, 10, 0, 0, 0, 1, 0, 0, 0, 0, 0, 0, 0, 7, 8, 0, 1, 0, 0, 0, 5, 11, 255, 254, 0, 0, 0, 1, 97, 0] := by rfl
+example : SkipBounded (fun _ _ => .err) := fun _ _ => trivial
+example : B256 [8, 0, 1, 0, 0, 0, 5, 0] := by intro b hb; simp at hb; omega
+
+end Props.C10
